@@ -129,6 +129,36 @@ fn family() -> Vec<SetCase> {
             }
         }
     }
+    // the argument is its value, however it is spelled: the whole input as `facts`, a field of it, and a literal equal to it,
+    // in one rule and across rules, directly and inside membership tests
+    for a in &args {
+        if matches!(a, Value::Float(f) if f.is_nan()) {
+            continue;
+        }
+        for cacheable in [true, false] {
+            for shape in 0..4u8 {
+                let mut fns = BTreeMap::new();
+                fns.insert("fa".to_string(), me::FnSpec { cacheable, fail_on: vec![], fail_first: 0, uncacheable_after: 0 });
+                let input = crate::pool::map(&[("x", a.clone())]);
+                let f = |e: Expr| Expr::func("fa", e);
+                let whole = || f(Expr::reff("facts"));
+                let whole_lit = || f(Expr::Value(input.clone()));
+                let field = || f(Expr::reff("x"));
+                let field_lit = || f(Expr::Value(a.clone()));
+                let rules: Vec<(String, Expr)> = match shape {
+                    0 => vec![("r0".into(), Expr::Vec(vec![whole(), whole_lit(), whole(), field(), field_lit()]))],
+                    1 => vec![("r0".into(), whole_lit()), ("r1".into(), whole()), ("r2".into(), field_lit()), ("r3".into(), field())],
+                    2 => vec![
+                        ("r0".into(), Expr::contains(Expr::Vec(vec![Expr::value(1)]), field())),
+                        ("r1".into(), field_lit()),
+                        ("r2".into(), Expr::contains(whole(), Expr::value(1))),
+                    ],
+                    _ => vec![("r0".into(), Expr::eq(field(), field_lit())), ("r1".into(), Expr::contains(Expr::Vec(vec![whole_lit()]), whole()))],
+                };
+                out.push(SetCase { spec: SetSpec { rules, fns, symbols: BTreeMap::new(), suspend: 0 }, inputs: vec![input.clone(), input] });
+            }
+        }
+    }
     out
 }
 
